@@ -281,6 +281,12 @@ func streamAddr(c *ctx) {
 			}
 		}
 	}
+	// IPv6 text whose zone holds dots (three of them, but no dotted quad anywhere): no role takes it
+	for _, s := range []string{"[fe80::1%bond0.10.20.x]:60001", "[::1%a.b.c.d]:60000", "[::1%...]:60000", "fe80::1%eth0.1.2.x", "[fe80::1%1.2.3.x]:60001", "::1%1.2.3", "[::1%1.2.3]:60001"} {
+		for _, role := range addrRoles {
+			emitParse(role, s, "parse/ipv6-zone-with-dots")
+		}
+	}
 	// mutations of valid addresses
 	junk := []string{"", " ", "x", "::ffff:", "[", "]", "%eth0", "a.b.c.d", "256", "01", "-1", "65536", "060000", "0x10", ".", ":", "1.2.3", "1.2.3.4.5"}
 	for i := 0; i < 6000*c.scale; i++ {
